@@ -699,6 +699,25 @@ pub fn int_grid(ev: Ev) -> Vec<String> {
             }
         }
     }
+    // a power or a product under a remainder, with moduli on either side of 2^31, sqrt(2^63) and 2^32:
+    // modular arithmetic written by hand multiplies remainders, which fits or not depending on the
+    // modulus (seeded change C01-r10: x^y % m by modular exponentiation, overflowing for m above 3037000500)
+    if has_fact_mod(ev) {
+        let moduli = ["2147483647", "2147483648", "3037000499", "3037000501", "3500000000", "4000000000", "4292870399", "4294967291", "4294967295", "4294967296", "4294967297", "9223372036854775807", "1000000007", "(-4294967291)", "(-3037000501)"];
+        let bases = ["3", "7", "1234567", "4000000000", "4294967295", "2147483647", "(-3)", "(-1234567)", "65537", "9223372036854775807"];
+        let exps = ["2", "3", "64", "1000", "65537", "4294967295"];
+        for m in moduli {
+            for b in bases {
+                for e in exps {
+                    v.push(format!("{}^{}%{}", b, e, m));
+                    v.push(format!("mod(pow({},{}),{})", b, e, m));
+                }
+                v.push(format!("{}²%{}", b, m));
+                v.push(format!("{}*{}%{}", b, b, m));
+                v.push(format!("({}%{})*({}%{})%{}", b, m, b, m, m));
+            }
+        }
+    }
     v
 }
 
@@ -833,6 +852,29 @@ pub fn bombs(ev: Ev) -> Vec<String> {
             v.push(format!("{}{}{}", open.repeat(k), mid, close.repeat(k)));
             // unbalanced variant
             v.push(format!("{}{}", open.repeat((256 - mid.len()) / ol.max(1)), mid));
+        }
+    }
+    // two nesting constructs in alternation (continued fractions 1+1/(1+1/(…)), nested radicals
+    // sqrt(1+sqrt(1+…)), …): work that doubles wherever one kind of node sits over another (seeded change
+    // C02-r10: an integer fast path that evaluates a non-integer operand twice, 2^depth in alternation only)
+    {
+        let units: Vec<(&str, &str)> = vec![("1+(", ")"), ("2*(", ")"), ("1/(", ")"), ("-(", ")"), ("sqrt(", ")"), ("abs(", ")"), ("(", ")"), ("⌊", "⌋"), ("max(1,", ")"), ("1-(", ")"), ("0.5+(", ")"), ("round(", ")"), ("2^(", ")"), ("(1)(", ")"), ("1+1/(", ")"), ("1+sqrt(", ")")];
+        for (i, (ao, ac)) in units.iter().enumerate() {
+            for (j, (bo, bc)) in units.iter().enumerate() {
+                if i == j {
+                    continue;
+                }
+                let per = ao.chars().count() + ac.chars().count() + bo.chars().count() + bc.chars().count();
+                let max_k = 254 / per;
+                for k in [max_k, max_k / 2, 8, 12] {
+                    if k == 0 || k > max_k {
+                        continue;
+                    }
+                    let open: String = (0..k).map(|_| format!("{}{}", ao, bo)).collect();
+                    let close: String = (0..k).map(|_| format!("{}{}", bc, ac)).collect();
+                    v.push(format!("{}1{}", open, close));
+                }
+            }
         }
     }
     v.push("1".to_string() + &"!".repeat(255));
